@@ -413,6 +413,7 @@ func runCCT(c *Ctx) {
 	}
 	for i := 0; i < nCancel; i++ {
 		cctCancelCase(c, i)
+		cctCancelLossCase(c, i)
 	}
 	for i := 0; i < nCancel; i++ {
 		cctLateCase(c, i)
@@ -778,4 +779,90 @@ func cctLateCase(c *Ctx, i int) {
 	default:
 		c.Oracle(cn, true, "")
 	}
+}
+
+// kind cancelloss (C04): 1-3 ReadDirContext calls are abandoned (context cancelled while their OPENDIR is outstanding, the
+// peer never answers), 0-3 other calls are outstanding, then the connection is lost. Every outstanding call must fail, a
+// call made after the loss must fail and not hang, Wait and Close must return.
+func cctCancelLossCase(c *Ctx, i int) {
+	c1, c2 := net.Pipe()
+	peer := &cctHeldPeer{conn: c2, arrived: make(chan struct{}, 1)}
+	go peer.run()
+	defer c2.Close()
+	cl, err := sftp.NewClientPipe(c1, c1)
+	if err != nil {
+		c.Diag("cct cancelloss setup: %v", err)
+		return
+	}
+	abandoned := 1 + i%3
+	k := (i / 3) % 4
+	problems := []string{}
+	ctx, cancel := context.WithCancel(context.Background())
+	aErr := make(chan error, abandoned)
+	for a := 0; a < abandoned; a++ {
+		go func(a int) { _, err := cl.ReadDirContext(ctx, fmt.Sprintf("/d%d", a)); aErr <- err }(a)
+	}
+	bch := make(chan error, k)
+	for j := 0; j < k; j++ {
+		go func(j int) { _, err := cl.Stat(fmt.Sprintf("/s%d", j)); bch <- err }(j)
+	}
+	if !peer.waitFor(abandoned+k, 5*time.Second) {
+		problems = append(problems, "harness: not all requests arrived")
+	}
+	cancel()
+	for a := 0; a < abandoned; a++ {
+		select {
+		case <-aErr:
+		case <-time.After(5 * time.Second):
+			problems = append(problems, "cancelled-call-hang: ReadDirContext did not return within 5 s of its context being cancelled")
+		}
+	}
+	c2.Close() // the connection is lost
+	for j := 0; j < k; j++ {
+		select {
+		case err := <-bch:
+			if err == nil {
+				problems = append(problems, "call-succeeded-after-loss: a call whose request was never answered returned no error")
+			}
+		case <-time.After(5 * time.Second):
+			problems = append(problems, "hang: a call outstanding when the connection was lost did not return within 5 s")
+		}
+	}
+	for n := 0; n < 3; n++ { // calls made after the loss
+		late := make(chan error, 1)
+		go func() { _, err := cl.Stat("/late"); late <- err }()
+		select {
+		case err := <-late:
+			if err == nil {
+				problems = append(problems, "call-succeeded-after-loss: a call made after the connection was lost returned no error")
+			}
+		case <-time.After(5 * time.Second):
+			problems = append(problems, "hang: a call made after the connection was lost (and after abandoned calls) did not return within 5 s")
+		}
+	}
+	wch := make(chan struct{})
+	go func() { cl.Wait(); close(wch) }()
+	select {
+	case <-wch:
+	case <-time.After(5 * time.Second):
+		problems = append(problems, "hang: Wait did not return within 5 s of the connection being lost")
+	}
+	cch := make(chan struct{})
+	go func() { cl.Close(); close(cch) }()
+	select {
+	case <-cch:
+	case <-time.After(5 * time.Second):
+		problems = append(problems, "hang: Close did not return within 5 s of the connection being lost")
+	}
+	tr := sftp.VerifCCTrace(cl)
+	cn := c.Case("cctrace", kvs("mode", "cancelloss"), kvi("abandoned", abandoned), kvi("others", k), kvi("i", i), "tr="+traceJoin(tr))
+	c.NT(cn)
+	c.Obs(cn, "accepted=1")
+	if len(problems) > 0 {
+		c.Oracle(cn, false, problems[0])
+	} else {
+		c.Oracle(cn, true, "")
+	}
+	c.Stat("cct_cancelloss_cases")
+	c1.Close()
 }
